@@ -493,8 +493,10 @@ class InterpND(object):
         ndarray
             Vector of gradients of the interpolated values with respect to each value in xi.
         """
-        if (self._xi is None) or (not np.array_equal(xi, self._xi)):
-            # If inputs have changed since last computation, then re-interpolate.
+        if (self._xi is None) or (not self._compute_d_dx) or \
+           (not np.array_equal(xi, self._xi)):
+            # If inputs have changed since last computation, or if that computation did not
+            # include the derivatives, then re-interpolate.
             self.interpolate(xi, compute_derivative=True)
 
         return self._gradient().reshape(np.asarray(xi).shape)
